@@ -834,6 +834,9 @@ def crossed_cases(quick):
             for close in ('opened_by_0', 'opened_by_1', None):
                 for closer in ((0, 1) if close else (None,)):
                     out.append({'link': link, 'mode': mode, 'close': close, 'closer': closer})
+            # the frame check sequence covers the header, i.e. the identifier the frame travels under: with crossed
+            # identifiers the two ends of a channel use different ones
+            out.append({'link': link, 'mode': mode, 'close': None, 'closer': None, 'fcs': True})
     return out
 
 
@@ -842,7 +845,9 @@ def run_crossed(case):
 
     viol = []
     sig = {'phase': 'crossed_identifiers', 'mode': case['mode'], 'link': case['link'], 'closed': case['close'] or 'none'}
-    s = spec(mode=case['mode'], mtu=256, mps=48, win=3)
+    s = spec(mode=case['mode'], mtu=256, mps=48, win=3, fcs=bool(case.get('fcs')))
+    if case.get('fcs'):
+        sig['fcs'] = True
     psm = 0x1001
     classic = case['link'] == 'classic'
     with World(2, classic=classic, le=not classic) as w:
